@@ -25,6 +25,7 @@ LEVEL = "model_checking"
 BUDGET = {"quick": 480, "thorough": 3000}
 
 T3, T5, T6, DELAY = 45.0, 10.0, 5.0, 10
+PACE = 0.001  # virtual seconds between two segments of one write when the link is paced
 BOUND = T5 + T6 + 2 * (T3 + DELAY)
 
 
@@ -58,7 +59,7 @@ def val(x):
     return g() if callable(g) else x
 
 
-def run_one(devs, budgets, host_active=True, order="host-first", eq_initial="ONLINE", phase="full", cuts=False):
+def run_one(devs, budgets, host_active=True, order="host-first", eq_initial="ONLINE", phase="full", cuts=False, paced=False):
     box = {"steps": [], "bad": []}
 
     def driver(s):
@@ -69,6 +70,8 @@ def run_one(devs, budgets, host_active=True, order="host-first", eq_initial="ONL
         host.protocol._connection  # noqa: B018
         eq.protocol._connection  # noqa: B018
         link = env.Link(hs.loop, es.loop, chunk_menu=cuts)
+        if paced:
+            hs.loop.pace = es.loop.pace = PACE
         env.autoconnect(link)
         step = box["steps"].append
         bad = box["bad"].append
@@ -149,6 +152,33 @@ def run_one(devs, budgets, host_active=True, order="host-first", eq_initial="ONL
         # drop every subscription, subscribe the same event again: the event must arrive exactly once, with the new report only
         host.clear_collection_events()
         event("resubscribed", True)
+        if phase == "midflight":
+            # either side is disabled while a message to it is on the wire (one segment delivered, the next still under way), re-enabled:
+            # communication again, and everything holds again
+            eq.trigger_collection_events([50])
+            s.block(lambda: False, s.clock + PACE / 2, "half a segment gap")
+            host.disable()
+            step(("host-disabled-midflight", host.communication_state.current.name))
+            s.block(lambda: False, s.clock + T3 + 1, "let the unanswered event report time out")
+            host.enable()
+            if both_communicating("host-restart-midflight"):
+                services("after-host-restart-midflight")
+                event("after-host-restart-midflight", False)
+            res = {}
+            t = vrt.Thread(target=lambda: res.update(r=host.request_svs([10])), name="host-call")
+            t.start()
+            s.block(lambda: False, s.clock + PACE / 2, "half a segment gap")
+            eq.disable()
+            step(("eq-disabled-midflight", eq.communication_state.current.name))
+            t.join(T3 + 5)
+            eq.enable()
+            if both_communicating("eq-restart-midflight"):
+                services("after-eq-restart-midflight")
+                event("after-eq-restart-midflight", False)
+            host.disable()
+            eq.disable()
+            step(("end",))
+            return
         control("first")
         if phase == "full":
             host.disable()
@@ -169,7 +199,7 @@ def run_one(devs, budgets, host_active=True, order="host-first", eq_initial="ONL
 
     sched = vrt.run(driver, devs, budgets, max_steps=2_000_000, max_time=20000.0, line_points=(phase == "handshake"))
     res = {"trace": sched.trace, "v": []}
-    case = {"host_active": host_active, "order": order, "eq_initial": eq_initial, "phase": phase, "cuts": cuts}
+    case = {"host_active": host_active, "order": order, "eq_initial": eq_initial, "phase": phase, "cuts": cuts, "paced": paced}
     if sched.harness_failure or (sched.driver_exception and "HarnessError" in sched.driver_exception):
         res["harness"] = (sched.harness_failure or sched.driver_exception)[-1500:]
         res["obs"] = None
@@ -207,6 +237,8 @@ def run(ctx):
         "line of GemHandler.waitfor_communicating / _on_state_communicating (the waiter registration against the transition)",
         f"'within a bounded time' = T5 + T6 + 2 (T3 + delay) = {BOUND} s of virtual time",
         "the equipment's own tables are the reference for every host service call",
+        "mid-flight phase: the link is paced (1 ms between the segments of one write); a side is disabled half a gap after the peer started "
+        "a message to it, so with a segment cut the disabled side holds an incomplete message; it is re-enabled after T3",
     ]
     from checks import hsms_harness as hh  # noqa: PLC0415
 
@@ -229,6 +261,12 @@ def run(ctx):
         states += st["distinct_outcomes"]
         if ctx.out_of_time():
             break
+    # disable in mid-flight: paced link, every <= 1 segment cut (the cut decides which message is half delivered at the disable)
+    for cfg in configs(False)[:2] + configs(False)[4:5]:
+        st = explore.explore(ctx, run_one, {"sched": 0, "cut": 1}, f"c20-midflight-{cfg}", opts=dict(cfg, phase="midflight", cuts=True, paced=True), chunk=4)
+        parts.append({"cfg": cfg, "phase": "midflight", "budgets": {"sched": 0, "cut": 1}, "executions": st["executions"], "outcomes": st["distinct_outcomes"]})
+        tot += st["executions"]
+        states += st["distinct_outcomes"]
     # one configuration: services phase under K = 1
     cfg = configs(False)[0]
     st = explore.explore(ctx, run_one, {"sched": 1, "cut": 0}, "c20-services-K1", opts=dict(cfg, phase="services"), chunk=8)
